@@ -413,7 +413,7 @@ def rule_R5(ctx, f):
     def mentions(t, fld):
         return any(isinstance(s_, tuple) and len(s_) == 3 and s_[0] == "field" and s_[2] == fld for s_ in outer_terms(t))
     # prefix
-    sn = cl.calls_to(["MetricFamily::set_name", "set_name"])
+    sn = [c for c in cl.calls_to(["MetricFamily::set_name", "set_name"]) if peel(c.args[0]) == fam]
     ok = len(sn) == 1 and peel(sn[0].args[0]) == fam
     fmt_ok = False
     if ok:
@@ -466,19 +466,37 @@ def rule_R5(ctx, f):
     npair = 0
     cands = f.closures_of(cl)
     if not [c2 for c2 in cands if c2.calls_to(["LabelPair::set_name"])]:
-        # the pairs may be built once outside the per-family closure (in gather itself or in a helper of the registry)
-        cands = [bd for bd in f.bodies.values() if "::registry::" in bd.path and "{closure" in bd.path and bd.path != cl.path]
+        # the pairs may be built once outside the per-family closure (in gather itself or in a helper of the registry), or by a `for` loop in this closure
+        cands = [bd for bd in f.bodies.values() if "::registry::" in bd.path and "{closure" in bd.path and bd.path != cl.path] + [cl, b]
+    T_ = ["ToString::to_string", "Clone::clone", "ToOwned::to_owned", "String::clone", "str::to_owned"]
     for c2 in cands:
-        sn2 = c2.calls_to(["LabelPair::set_name"])
+        sn2 = [c for c in c2.calls_to(["LabelPair::set_name"]) if peel(c.args[0]) != fam]
         sv2 = c2.calls_to(["LabelPair::set_value"])
         if not sn2 and not sv2:
             continue
         npair += 1
         ctx.saw(c2)
-        ok = len(sn2) == 1 and len(sv2) == 1 and peel(sn2[0].args[1], transparent=["ToString::to_string", "Clone::clone", "ToOwned::to_owned"]) == ("field", ("param", 2), "0") \
-            and peel(sv2[0].args[1], transparent=["ToString::to_string", "Clone::clone", "ToOwned::to_owned"]) == ("field", ("param", 2), "1")
-        ctx.ob(rid, "labels|pair-from-entry", ok, "a common pair must be (key, value) of the registry's label map entry", site=c2.raw["span"]["at"])
-    ctx.floor(rid, "closures building common label pairs", npair, 1)
+        ok = len(sn2) == 1 and len(sv2) == 1
+        if ok:
+            n_, v_ = peel(sn2[0].args[1], transparent=T_), peel(sv2[0].args[1], transparent=T_)
+            if n_ == ("field", ("param", 2), "0") and v_ == ("field", ("param", 2), "1"):
+                pass        # |(k, v)| of a map over the label map
+            else:
+                # for (k, v) in hmap.iter(): both from the same iteration over the registry's label map, nothing skipped
+                en, ev = elem_of(n_), elem_of(v_)
+                ok = bool(en) and bool(ev) and en[0] == ev[0] and en[2] == ["0"] and ev[2] == ["1"] and not [x for x in en[1] if x not in ("iter", "into_iter")] \
+                    and mentions_in(c2, en[0], "labels")
+                if ok:
+                    from . import hash_common as hc_
+                    pu = [c for c in c2.calls_to("Vec::push") if peel(c.args[1]) == peel(sn2[0].args[0])]
+                    ok = len(pu) == 1 and hc_.every_element(c2, pu[0], via=sn2[0]) is True
+        ctx.ob(rid, "labels|pair-from-entry", ok, "a common pair must be (key, value) of the registry's label map entry, for every entry", site=c2.raw["span"]["at"])
+    ctx.floor(rid, "places building common label pairs", npair, 1)
+
+
+def mentions_in(body, t, fld):
+    """A field named fld occurs in t (captured variables of a closure body are not followed here: the label map is reached through `self`)."""
+    return any(isinstance(s_, tuple) and len(s_) == 3 and s_[0] == "field" and s_[2] == fld for s_ in subterms(t))
 
 
 def rule_R7(ctx, f):
